@@ -258,6 +258,31 @@ def _ext_alone(tools):
                 return None if int(r2[0]) == want else 'seed: not deterministic'
             yield 'seed-%d-%s' % (sd, idx), seedcase
 
+    # the SAME generator object used again after its state changed: the seed follows the state, not the object
+    def reused_generator(how):
+        def case():
+            op = E('echo {0} {seed}', process_result='int64')
+            vop = tools.vectorize(E('echo {seed} {index_in_batch}', process_result='int64'))
+            rs = np.random.RandomState(101)
+            for step in range(3):
+                word = rs.get_state()[1][0]
+                r = op(7, random_state=rs)
+                if [int(v) for v in r] != [7, sub_seed_oracle(word, 0)]:
+                    return 'seed: generator object reused after %s (step %d): got %r, the sub-seed of its CURRENT state word is %d' % (how, step, r.tolist(), sub_seed_oracle(word, 0))
+                g = vop(meta=dict(batch_index=0, submission_index=0, master_seed=1, model_name='m'), random_state=rs, batch_size=3)
+                if [int(v) for v in g[:, 0]] != [sub_seed_oracle(word, j) for j in range(3)]:
+                    return 'seed: vectorised call on a generator object reused after %s (step %d) does not use its current state' % (how, step)
+                if how == 're-seeding':
+                    rs.seed(202 + step)
+                elif how == 'advancing':
+                    rs.rand(700)            # more than 624 draws: the state vector is regenerated
+                else:
+                    rs.set_state(np.random.RandomState(900 + step).get_state())
+            return None
+        return case
+    for how in ('re-seeding', 'advancing', 'set_state'):
+        yield 'seed-reused-generator-%s' % how, reused_generator(how)
+
     # the way the executor calls a vectorised external operation in batch k: full run metadata, one generator per batch
     for k in (0, 1, 2, 3):
         def batchcase(k=k):
@@ -337,6 +362,37 @@ def _ext_model(elfi, tools):
                 return None
             yield 'model-b%d-s%d-batch%d' % (bsz, seed, bi), case
 
+    def global_seed():
+        """generate() with the default 'global' seed draws from numpy's global generator: it must follow np.random.seed"""
+        saved = np.random.get_state()
+        try:
+            outs = []
+            for sd in (1, 2, 1):
+                np.random.seed(sd)
+                m = elfi.ElfiModel()
+                p = elfi.Prior('uniform', 0, 1, model=m, name='p')
+                ext = tools.external_operation('echo {0} {seed} {index_in_batch}', process_result='float64')
+                rec = []
+
+                def wrap(*a, ext=ext, rec=rec, **kw):
+                    rec.append(int(kw['random_state'].get_state()[1][0]))
+                    return ext(*a, **kw)
+                sim = elfi.Simulator(tools.vectorize(wrap), p, model=m, name='s')
+                sim.uses_meta = True
+                s_ = np.asarray(m.generate(3, outputs=['s'])['s'])
+                want = [sub_seed_oracle(rec[j], j) for j in range(3)]
+                if s_.shape != (3, 3) or [int(v) for v in s_[:, 1]] != want:
+                    return "model seed: generate() with the global seed after np.random.seed(%d): seeds %r, sub-seeds of the generator's current state %r" % (sd, s_[:, 1].tolist(), want)
+                outs.append(s_)
+            if not np.array_equal(outs[0], outs[2]):
+                return 'model seed: not deterministic in np.random.seed'
+            if np.array_equal(outs[0][:, 1], outs[1][:, 1]):
+                return 'model seed: generate() ignores np.random.seed (same seeds after seed 1 and seed 2)'
+            return None
+        finally:
+            np.random.set_state(saved)
+    yield 'model-global-seed', global_seed
+
     def doc_example():
         m = elfi.ElfiModel()
         c = elfi.Constant(123, model=m, name='c')
@@ -366,14 +422,14 @@ def _run_thunk(th):
 
 
 def run_ext(tier, first_failure_only=True):
-    res = {'alone': dict(name='external-echo', bound='echo-style templates / option combinations, seeds {0,7} x index {None,0,1,2}, vectorised batches 0..3 of 4 rows with the full run metadata', cases=0, nontrivial=0, failures=[],
+    res = {'alone': dict(name='external-echo', bound='echo-style templates / option combinations, seeds {0,7} x index {None,0,1,2}, vectorised batches 0..3 of 4 rows with the full run metadata, one generator object reused after re-seeding / advancing / set_state', cases=0, nontrivial=0, failures=[],
                          rule='non-trivial = the seed cases (used generator, row index given)'),
-           'model': dict(name='external-in-model', bound='model Prior -> Simulator(vectorize(external_operation)), batch_size 1..3 x seeds 1..3 in batch 0, batch_size 2,4 in batches 1..3, + docstring example',
+           'model': dict(name='external-in-model', bound='model Prior -> Simulator(vectorize(external_operation)), batch_size 1..3 x seeds 1..3 in batch 0, batch_size 2,4 in batches 1..3, generate() with the global seed after np.random.seed(1/2/1), + docstring example',
                          cases=0, nontrivial=0, failures=[], rule='non-trivial = batch_size > 1')}
     for grp, name, th in ext_cases():
         r = res[grp]
         r['cases'] += 1
-        r['nontrivial'] += 1 if (name.startswith('seed-') or (name.startswith('model-b') and not name.startswith('model-b1'))) else 0
+        r['nontrivial'] += 1 if (name.startswith('seed-') or name == 'model-global-seed' or (name.startswith('model-b') and not name.startswith('model-b1'))) else 0
         w = _run_thunk(th)
         if w:
             r['failures'].append(dict(what=w, input=dict(part='ext', case=name), signature='c18-ext:' + w.split(':')[0][:50]))
